@@ -449,7 +449,8 @@ pub fn random_time(rng: &mut Rng) -> Value {
 }
 
 pub fn random_dn(rng: &mut Rng, max: u64) -> Value {
-	let types = ["2.5.4.6", "2.5.4.7", "2.5.4.8", "2.5.4.10", "2.5.4.11", "2.5.4.3", "1.2.840.113549.1.9.1", "0.9.2342.19200300.100.1.25", "2.999.1.2.3", "1.3.6.1.4.1.55555.7"];
+	let types = ["2.5.4.6", "2.5.4.7", "2.5.4.8", "2.5.4.10", "2.5.4.11", "2.5.4.3", "1.2.840.113549.1.9.1", "0.9.2342.19200300.100.1.25", "2.999.1.2.3", "1.3.6.1.4.1.55555.7",
+		"2.5.4.12", "2.5.4.4", "2.5.4.5", "1.2.18446744073709551615", "1.2.144115188075855872.1", "2.18446744073709551534", "1.2.3", "1.2.3.4"];
 	let kinds = ["utf8", "printable", "ia5", "teletex", "bmp", "universal"];
 	let n = rng.below(max + 1) as usize;
 	let mut used: Vec<&str> = Vec::new();
@@ -462,7 +463,20 @@ pub fn random_dn(rng: &mut Rng, max: u64) -> Value {
 		used.push(t);
 		let k = *rng.pick(&kinds);
 		let maxlen = if rng.chance(1, 10) { 200 } else { 12 };
-		out.push(json!({"ty": t, "kind": k, "val": hex(random_text(k, rng, maxlen).as_bytes())}));
+		// delicate values: the empty string, the characters at the edges of each alphabet, a byte order mark
+		let text = match rng.below(12) {
+			0 => String::new(),
+			1 => match k {
+				"printable" => "a?b".to_string(),
+				"ia5" => "\u{0}\u{7f}".to_string(),
+				"teletex" => " \u{7f}".to_string(),
+				"bmp" => "\u{feff}x\u{fffe}".to_string(),
+				"universal" => "\u{feff}\u{10ffff}".to_string(),
+				_ => "\u{0}\u{10ffff}\u{feff}".to_string(),
+			},
+			_ => random_text(k, rng, maxlen),
+		};
+		out.push(json!({"ty": t, "kind": k, "val": hex(text.as_bytes())}));
 	}
 	Value::Array(out)
 }
@@ -512,7 +526,27 @@ fn random_oid(rng: &mut Rng) -> String {
 
 pub fn random_params(rng: &mut Rng) -> Value {
 	let opt = |rng: &mut Rng, p: u64| rng.chance(p, 10);
-	let serial = if opt(rng, 6) { let n = rng.below(21) as usize; json!({"k": "given", "b": bytes_json(&rng.bytes(n))}) } else { json!({"k": "auto", "b": []}) };
+	let serial = if opt(rng, 6) {
+		let n = rng.below(21) as usize;
+		let mut b = rng.bytes(n);
+		// delicate shapes: top bit set at full length, leading zero octets, all ones
+		match rng.below(8) {
+			0 => {
+				b = rng.bytes(20);
+				b[0] |= 0x80;
+			},
+			1 if n >= 2 => {
+				b[0] = 0;
+				b[1] |= 0x80;
+			},
+			2 => b = vec![0xff; n.max(1)],
+			3 => b = vec![0; n],
+			_ => {},
+		}
+		json!({"k": "given", "b": bytes_json(&b)})
+	} else {
+		json!({"k": "auto", "b": []})
+	};
 	let sans: Vec<Value> = if opt(rng, 5) { (0..1 + rng.below(6)).map(|_| random_gname(rng)).collect() } else { vec![] };
 	let is_ca = match rng.below(5) {
 		0 | 1 => json!({"k": "NoCa", "pl": {"k": "none", "n": 0}}),
@@ -526,7 +560,8 @@ pub fn random_params(rng: &mut Rng) -> Value {
 	if opt(rng, 5) {
 		for _ in 0..1 + rng.below(4) {
 			let e = if rng.chance(1, 4) { format!("1.3.6.1.4.1.311.{}.{}", rng.below(50), rng.below(50)) } else { rng.pick(&std_eku).to_string() };
-			if !eku.contains(&json!(e)) {
+			// a purpose may be named twice now and then (the list is the caller's)
+			if !eku.contains(&json!(e)) || rng.chance(1, 6) {
 				eku.push(json!(e));
 			}
 		}
@@ -559,7 +594,7 @@ pub fn random_params(rng: &mut Rng) -> Value {
 		0 => json!({"k": "sha256", "b": []}),
 		1 => json!({"k": "sha384", "b": []}),
 		2 => json!({"k": "sha512", "b": []}),
-		3 => { let n = rng.below(24) as usize; json!({"k": "pre", "b": bytes_json(&rng.bytes(n))}) },
+		3 => { let r = rng.below(24) as usize; let n = *rng.pick(&[0usize, 1, 4, 19, 20, 21, 32, 64, r]); json!({"k": "pre", "b": bytes_json(&rng.bytes(n))}) },
 		_ => json!({"k": "sha256", "b": []}),
 	};
 	let _ = random_oid(rng);
